@@ -19,8 +19,11 @@ class C16(C05):
             "involved (rows, names, name index incl. empty entries, properties) must equal its dump before the call. "
             "Non-trivial: history with at least one refused operation on a non-empty database; distinct by history.")
 
+    def gen_zero_cases(self):
+        return iter(())          # the read-only frame on explicit zeros belongs to C05
+
     def nontrivial(self, case, a_impl):
-        if any(o.get("fault") for o in case["ops"]):
+        if any(o.get("fault") for o in case.get("ops", [])):
             return vlib.canon(case)
         return None
 
